@@ -17,6 +17,8 @@ import (
 
 // C08 - copy makes the destination equal to the source over the requested window.
 type CopyPair struct {
+	// SrcLink: the source path is a symbolic link to the real file (kept outside the source base)
+	SrcLink    bool        `json:"src_link,omitempty"`
 	Rel        string      `json:"rel"`
 	Src        FileSpec    `json:"src"`
 	DestMode   string      `json:"dest_mode"` // absent | fresh | same | perturbed | random | coarser-equal
@@ -33,6 +35,9 @@ type C08Case struct {
 	Until     int64      `json:"until"`
 	ArchiveID int        `json:"archive_id"`
 	CopyNaN   bool       `json:"copy_nan"`
+	// MustFail: "" | "bad-archive" | "missing-source": the copy has to be refused; a destination that did
+	// not exist is then either still absent or a valid file with the requested layout and no points
+	MustFail string `json:"must_fail,omitempty"`
 }
 
 func layoutsEqualArchives(a, b Layout) bool {
@@ -134,7 +139,18 @@ func runC08(c C08Case, ev *Evid) (fs []Finding) {
 	for i, p := range c.Pairs {
 		st := &pairState{srcPath: filepath.Join(srcBase, p.Rel), destPath: filepath.Join(destBase, destRelOf(i))}
 		sts[i] = st
-		if err := buildFile(st.srcPath, p.Src, now); err != nil {
+		if p.SrcLink {
+			target := filepath.Join(dir, "linked", fmt.Sprintf("t%d.wsp", i))
+			if err := buildFile(target, p.Src, now); err != nil {
+				add("setup", "building source %s: %v", p.Rel, err)
+				return
+			}
+			os.MkdirAll(filepath.Dir(st.srcPath), 0755)
+			if err := os.Symlink(target, st.srcPath); err != nil {
+				add("setup", "symlink: %v", err)
+				return
+			}
+		} else if err := buildFile(st.srcPath, p.Src, now); err != nil {
 			add("setup", "building source %s: %v", p.Rel, err)
 			return
 		}
@@ -150,6 +166,9 @@ func runC08(c C08Case, ev *Evid) (fs []Finding) {
 			st.D, _ = readArchives(st.destPath, srcL, c.From, until, now)
 		}
 		st.S, _ = readArchives(st.srcPath, srcL, c.From, until, now)
+	}
+	if c.MustFail == "missing-source" {
+		os.Remove(sts[0].srcPath)
 	}
 	mk := func() *cmd.CopyCommand {
 		cc := &cmd.CopyCommand{SrcBase: srcBase, DestBase: destBase, AggregationMethod: wt.AggregationMethod(req.Method), XFilesFactor: req.XFF,
@@ -168,6 +187,40 @@ func runC08(c C08Case, ev *Evid) (fs []Finding) {
 	if pm != "" {
 		add("copy-panic", "%s: panicked: %s", desc, pm)
 		return
+	}
+	if c.MustFail != "" {
+		if err == nil {
+			add("refusal-missing", "%s: the copy must be refused (%s) but reported success", desc, c.MustFail)
+			return
+		}
+		for i, st := range sts {
+			b, rerr := os.ReadFile(st.destPath)
+			if rerr != nil {
+				continue
+			}
+			if st.existed {
+				if !bytes.Equal(b, st.destB) {
+					add("refused-copy-wrote", "%s: refused (%v) but the existing destination %s changed", desc, err, c.Pairs[i].Rel)
+					return
+				}
+				continue
+			}
+			f, perr := ParseWsp(b)
+			if perr != nil || !bytes.Equal(b[:len(EncodeLayoutHeader(req))], EncodeLayoutHeader(req)) {
+				add("refused-copy-left-garbage", "%s: refused (%v) and left a destination that is not a whisper file with the requested layout (%v)", desc, err, perr)
+				return
+			}
+			for a := range f.Slots {
+				for _, sl := range f.Slots[a] {
+					if sl.Interval != 0 {
+						add("refused-copy-wrote", "%s: refused (%v) but points were written into the new destination", desc, err)
+						return
+					}
+				}
+			}
+		}
+		ev.Count(HashJSON(c), true, "must-fail="+c.MustFail)
+		return nil
 	}
 	// source never modified
 	for i, st := range sts {
@@ -509,6 +562,18 @@ func genC08(t *rapid.T) C08Case {
 		c.ArchiveID = rapid.IntRange(0, len(l.Archives)-1).Draw(t, "archive")
 	}
 	c.CopyNaN = rapid.Bool().Draw(t, "copyNaN")
+	if c.Pattern != "" {
+		for i := range c.Pairs {
+			c.Pairs[i].SrcLink = rapid.IntRange(0, 4).Draw(t, "srcLink") == 0
+		}
+	}
+	if c.Pattern == "" && c.Pairs[0].DestMode != "subtle-mismatch" && rapid.IntRange(0, 11).Draw(t, "mustFail") == 0 {
+		c.MustFail = rapid.SampledFrom([]string{"bad-archive", "missing-source"}).Draw(t, "mustFailKind")
+		if c.MustFail == "bad-archive" {
+			c.ArchiveID = len(l.Archives) + rapid.IntRange(0, 2).Draw(t, "badBy")
+		}
+		return c
+	}
 	if c.Pairs[0].DestMode == "subtle-mismatch" {
 		if rapid.Bool().Draw(t, "reqIsDest") {
 			l2 := subtleLayoutVariant(l)
